@@ -25,7 +25,7 @@ def _params(tier):
         out += [dict(kind="byte", p=p, layout=layout) for p in pos]
         n = blobmut.blob_layout(layout)["length"]
         lay = blobmut.blob_layout(layout)
-        cuts = range(0, n) if tier == "thorough" else sorted(set(list(range(0, n, 29)) + [n - 1, n - 16, n - 17] + ([lay["cms_end"], lay["cms_end"] + 1] if lay["cms_end"] < n else [])))
+        cuts = range(0, n) if tier == "thorough" else sorted(set(list(range(0, n, 29)) + [n - 1, n - 16, n - 17] + ([lay["cms_end"], lay["cms_end"] + 1, lay["cms_end"] + 16] if lay["cms_end"] < n else [])))
         out += [dict(kind="trunc", p=p, layout=layout) for p in cuts]
         step = 1 if tier == "thorough" else 41
         out += [dict(kind="delete", p=p, layout=layout) for p in range(0, n, step)]
